@@ -8,7 +8,7 @@ META = {
 }
 def mk(nw, nr, pl, tmo):
     return Obl("threads-W%d-R%d-PL%d" % (nw, nr, pl), "c01_threads.c", defs=["NW=%d" % nw, "NR=%d" % nr, "PL=%d" % pl, "ATOMIC_PAYLOAD", "RING_W=6"],
-               unwind=8, checks="nopointer", flags=["--no-bounds-check", "--no-div-by-zero-check"], replay=False,
+               unwind=max(8, pl + 2), checks="nopointer", flags=["--no-bounds-check", "--no-div-by-zero-check"], replay=False,
                timeout=tmo, mem_gb=12,
                bounds={"writes": nw, "reads": nr, "payload_bytes_max": pl, "ring_words": 6, "start_position": "any", "memory_model": "SC"},
                units=["lib/ringbuffer.c"], stubs=["word-granular circular memcpy", "logging macros empty", "__atomic_*_n plain"])
